@@ -225,6 +225,21 @@ fn norm(r: &Real) -> Result<BTreeSet<String>, String> {
     }
 }
 
+/// the text an IRRd puts after `F`: usually short, but free-form - now and then a long one with
+/// multi-byte characters at every alignment (a message in the operator's language, a quoted object)
+pub fn long_message(r: &mut crate::util::Prng, short: &str) -> String {
+    if r.chance(2, 3) {
+        return short.to_string();
+    }
+    let mut s = "x".repeat(r.below(4));
+    let unit = *r.pick(&["\u{e9}", "\u{df}\u{20ac}", "\u{65e5}\u{672c}\u{8a9e}", "\u{1f600}", "a\u{e9}"]);
+    let target = *r.pick(&[60usize, 130, 250, 300, 520, 1030, 4100]) + r.below(16);
+    while s.len() < target {
+        s.push_str(unit);
+    }
+    s
+}
+
 pub fn run_c17(cfg: &Cfg) -> i32 {
     let mut rep = Report::new(
         "C17",
@@ -318,7 +333,7 @@ pub fn run_c17(cfg: &Cfg) -> i32 {
             let f = match r.below(3) {
                 0 => Fault::KeyNotFound,
                 1 => Fault::NotUnique,
-                _ => Fault::Other("injected failure".into()),
+                _ => Fault::Other(long_message(&mut r, "injected failure")),
             };
             faults.by_query.insert(q, f);
         }
@@ -332,7 +347,7 @@ pub fn run_c17(cfg: &Cfg) -> i32 {
             let f = match r.below(3) {
                 0 => Fault::KeyNotFound,
                 1 => Fault::NotUnique,
-                _ => Fault::Other("transient failure".into()),
+                _ => Fault::Other(long_message(&mut r, "transient failure")),
             };
             faults.once.insert(q, f);
         }
